@@ -7,7 +7,8 @@ stream satisfies the property's obligations (the engine's real decisions are suc
   C05: every group labelled flat has its line end <= min(W, group indent + R)
   C06: every group labelled broken that contains no forced break would not have fitted (refsem.would_fit: page/ribbon
        overflow, smart look-ahead overflow on a following more-indented line, or a forced break in the scanned region).
-Membership itself uses the lenient reading (the bare-hardline behaviour is C04's listed finding, not judged here).
+Membership is decided WITHOUT the forcing clause (a hardline / always_break inside a flat group is C04's business - incl. its listed
+finding - not judged here), so the group decisions are recovered even from layouts C04 rejects for that reason.
 """
 import prettyprinter
 import prettyprinter.layout as L
@@ -36,11 +37,11 @@ def check_term(sh, which, term, width, frac, strat):
         return
     smart = strat == 'smart'
     try:
-        base = R.Matcher(term, st, width, frac, smart, strict=False)
+        base = R.Matcher(term, st, width, frac, smart, strict=True, forcing=False)
         if not base.run():
             sh.counters['not a member of the layout set (judged by C04)'] += 1
             return
-        m = R.Matcher(term, st, width, frac, smart, strict=False, c05=(which == 'C05'), c06=(which == 'C06'))
+        m = R.Matcher(term, st, width, frac, smart, strict=True, forcing=False, c05=(which == 'C05'), c06=(which == 'C06'))
         ok = m.run()
     except R.Budget:
         sh.counters['matcher budget exhausted'] += 1
